@@ -145,6 +145,18 @@ def run(model, col, tier):
     if sm and prs:
         col.check(sm[0].lineno < prs[0].lineno, "R20.2", f"{PARSER}::NslParser.Parse mapping before parsing", "the mapping exists before actions run", None, PARSER, pa)
     lex = model.cls("nsl/lexer.py", "NslLexer")
+    # ... and the lexer scans that very string: NslLexer.input forwards its argument unchanged
+    li = lex.own_method("input")
+    lip = li.args.args[1].arg
+    fwd = [c for c in ast.walk(li) if isinstance(c, ast.Call) and last_attr(c) == "input" and isinstance(c.func, ast.Attribute) and "lexer" in unparse(c.func.value)]
+    from ..sem import local_env as _le0, rtext as _rt0
+
+    li_env = _le0(li)
+    rebound = any(isinstance(n, ast.Name) and isinstance(n.ctx, ast.Store) and n.id == lip for n in ast.walk(li))
+    col.check(bool(fwd) and all(len(c.args) == 1 and _rt0(c.args[0], li_env) == lip for c in fwd) and not rebound, "R20.2", "nsl/lexer.py::NslLexer.input forwards the text unchanged",
+              "token offsets index the string the source mapping was built from",
+              f"the lexer scans `{_rt0(fwd[0].args[0], li_env) if fwd and fwd[0].args else '?'}`, not the string it was given: every token offset is relative to a different text than the "
+              "line table (ranges are shifted)", "nsl/lexer.py", li)
     # no lexer rule rewrites lexpos
     rew = [n for m in lex.methods.values() for n in ast.walk(m) if isinstance(n, (ast.Assign, ast.AugAssign)) and "lexpos" in unparse(n.targets[0] if isinstance(n, ast.Assign) else n.target)]
     col.check(not rew, "R20.2", "nsl/lexer.py::NslLexer leaves lexpos alone", "token offsets are PLY's offsets into the input string", "a lexer rule rewrites lexpos", "nsl/lexer.py", lex.node)
@@ -220,9 +232,29 @@ def run(model, col, tier):
     vd = lv.own_method("v_VariableDeclaration")
     col.check("decl.GetName(), decl.GetLocation()" in unparse(vd).replace("\n", " "), "R20.4", f"{NAMES}::v_VariableDeclaration passes its own location",
               "ctx.Add(decl.GetName(), decl.GetLocation())", "the declaration does not pass its own name and location", NAMES, vd)
+    # every name registered for the redeclaration diagnostic carries the location of the entity that bears the name
+    nadd = 0
+    for mname_, m_ in lv.methods.items():
+        for c in ast.walk(m_):
+            if isinstance(c, ast.Call) and last_attr(c) == "Add" and len(c.args) == 2 and isinstance(c.args[0], ast.Call) and last_attr(c.args[0]) == "GetName" and isinstance(c.args[0].func, ast.Attribute):
+                nadd += 1
+                owner = unparse(c.args[0].func.value)
+                col.check(" ".join(unparse(c.args[1]).split()) == f"{owner}.GetLocation()", "R20.4", f"{NAMES}::{mname_} registers {owner} with its own location",
+                          f"Add({owner}.GetName(), {owner}.GetLocation())",
+                          f"`{unparse(c)[:70]}` registers the name of `{owner}` with the location `{unparse(c.args[1])}`: the 'already declared here' position of a later clash points at another entity", NAMES, c)
+    col.floor("R20.4", "name registrations in the variable-name validator", nadd, 2)
     # ---------------- R20.5 idioms ------------------------------------------------
     smc = model.cls(ASTF, "SourceMapping")
     init = smc.own_method("__init__")
+    from ..state import is_mutable_literal as _iml
+
+    shared_tbl = [k for k, v in smc.class_attrs.items() if _iml(v)]
+    tbl_fresh = [n for n in init.body if isinstance(n, ast.Assign) and isinstance(n.targets[0], ast.Attribute) and (isinstance(n.value, (ast.List, ast.ListComp)) or (isinstance(n.value, ast.Call) and dotted(n.value.func) == "list"))]
+    apps_ = [c for c in ast.walk(init) if isinstance(c, ast.Call) and last_attr(c) == "append" and isinstance(c.func.value, ast.Attribute)]
+    fresh_ok = not shared_tbl and all(any(t.targets[0].attr == c.func.value.attr and t.lineno < c.lineno for t in tbl_fresh) for c in apps_)
+    col.check(fresh_ok, "R20.5", f"{ASTF}::SourceMapping line table is per instance", "the table is created in __init__ before it is filled; no class-level container",
+              f"the line table is shared between SourceMapping objects (class-level {shared_tbl or 'container'} / not re-created in __init__): the second text mapped in a process appends to the first "
+              "text's table and every line number is wrong", ASTF, init)
     loops = [n for n in ast.walk(init) if isinstance(n, ast.For)]
     good = False
     if loops:
